@@ -267,7 +267,12 @@ func Validate(sim *Sim, r *Repo) error {
 	if err != nil {
 		return err
 	}
-	if got, want := strings.TrimRight(files, "\n"), strings.Join(sim.HeadTree().Paths(), "\n"); got != want {
+	// ls-tree prints a path that needs it in C notation, like the diff machinery (the order is that of the raw bytes)
+	var headPaths []string
+	for _, p := range sim.HeadTree().Paths() {
+		headPaths = append(headPaths, QuoteC(p))
+	}
+	if got, want := strings.TrimRight(files, "\n"), strings.Join(headPaths, "\n"); got != want {
 		return fmt.Errorf("files at HEAD in git:\n%s\nin the simulation:\n%s", got, want)
 	}
 	if emu := Emulate(sim, r.Hashes); emu != r.LogOut {
